@@ -381,7 +381,7 @@ class iindex(dict):
             # numpy.where performs worse with more categories,
             # but better with a higher ratio of uncommon values.
             uncommon_ratio = (
-                sum(final_counts.values()) - final_counts[common]
+                sum(final_counts.values()) - final_counts.get(common, 0)
             ) / float(values.size)
             # 100 was determined via benchmarks
             use_where = uncommon_ratio == 0 or (len(counts) / uncommon_ratio) < 100
